@@ -81,7 +81,7 @@ pub open spec fn field_state(line_index: Option<usize>, s: State) -> State { if 
 //@| requires line_index matches Some(i) ==> i < syntax_style_sections@.len() && i < diff_style_sections@.len(),  // @C03:the.row.names.a.line.that.exists
 //@|     line_index is None ==> empty_half_state_ok(*state),  // @C03:an.empty.half.row.is.a.plain.minus.or.plus.row
 //@| ensures ${LINK},
-//@|     *old(line_numbers_data) is Some ==> ctr(&*${NEW}) == ln_step(ctr(&*${OLD}), field_state(line_index, *state), panel_side != Left),
+//@|     *old(line_numbers_data) is Some ==> ctr(&*${NEW}) == ln_step(ctr(&*${OLD}), field_state(line_index, *state), panel_side != Left),  // @C05:the.empty.half.of.a.row.is.numbered.with.the.state.of.the.other.side.whose.counter.then.moves
 
 #[verifier::external_body]
 pub fn pad_panel_line_to_width(panel_line: &mut String, panel_line_is_empty: bool, line_index: Option<usize>, diff_style_sections: &[LineSections<'_, Style>], lines_have_homolog: Option<&[bool]>, state: &State, panel_side: PanelSide, background_color_extends_to_terminal_width: BgShouldFill, config: &Config)
@@ -96,7 +96,7 @@ pub fn pad_panel_line_to_width(panel_line: &mut String, panel_line_is_empty: boo
 //@| requires line_index matches Some(i) ==> i < syntax_style_sections@.len() && i < diff_style_sections@.len(),
 //@|     line_index is None ==> empty_half_state_ok(*state),
 //@| ensures ${LINK},
-//@|     *old(line_numbers_data) is Some ==> ctr(&*${NEW}) == ln_step(ctr(&*${OLD}), field_state(line_index, *state), true),
+//@|     *old(line_numbers_data) is Some ==> ctr(&*${NEW}) == ln_step(ctr(&*${OLD}), field_state(line_index, *state), true),  // @C05:the.right.half.of.a.row.moves.the.counters.by.the.table
 
 /// the row begins a removed line (not a continuation row of a wrapped one, not an empty left half)
 pub open spec fn begins_removed(ix: Option<usize>, states: Seq<State>) -> bool { ix matches Some(i) && states[i as int] is HunkMinus }
@@ -120,6 +120,25 @@ pub open spec fn row_states_ok(ix: Option<usize>, states: Seq<State>, left: bool
 //@| ensures final(line_numbers_data).line_number.minus == (if begins_removed(minus_line_index, line_states.minus@) { inc(old(line_numbers_data).line_number.minus) } else { old(line_numbers_data).line_number.minus }),  // @C05:the.old.file.counter.advances.on.exactly.the.rows.that.begin.a.removed.line
 //@|     final(line_numbers_data).line_number.plus == (if begins_added(plus_line_index, line_states.plus@) { inc(old(line_numbers_data).line_number.plus) } else { old(line_numbers_data).line_number.plus }),  // @C05:the.new.file.counter.advances.on.exactly.the.rows.that.begin.an.added.line
 //@|     rest_kept(final(line_numbers_data), old(line_numbers_data)),
+
+// one row of paint_zero_lines_side_by_side (an unchanged line or a continuation row of one): both halves are painted
+// with the same state, the left one first
+/// (R3) `painted_prefix.clone()` (an `ansi_term::ANSIString`)
+#[verifier::external_body]
+pub fn verif_clone_prefix<'a>(p: &Option<ansi_term::ANSIString<'a>>) -> Option<ansi_term::ANSIString<'a>> { unimplemented!() }
+//@ region src/features/side_by_side.rs paint_zero_lines_side_by_side
+//@sig pub fn sbs_zero_row_region<'a>(syntax_sections: LineSections<'a, SyntectStyle>, diff_sections: &LineSections<'a, Style>, state: State, line_index: usize, diff_style_sections: Vec<LineSections<'a, Style>>, line_numbers_data: &mut Option<&mut LineNumbersData>, painted_prefix: Option<ansi_term::ANSIString>, background_color_extends_to_terminal_width: BgShouldFill, output_buffer: &mut String, config: &Config)
+//@from <<<for panel_side in>>>
+//@toblock
+//@| requires *old(line_numbers_data) is Some ==> (*old(line_numbers_data))->0.line_number.minus < usize::MAX && (*old(line_numbers_data))->0.line_number.plus < usize::MAX,
+//@| ensures ${LINK},
+//@|     *old(line_numbers_data) is Some ==> ctr(&*${NEW}) == (if state is HunkZero { (inc(ctr(&*${OLD}).0), inc(ctr(&*${OLD}).1)) } else if state is HunkZeroWrapped { ctr(&*${OLD}) } else { ln_step(ctr(&*${OLD}), state, true) }),  // @C05:a.row.that.begins.an.unchanged.line.advances.both.counters.once.a.continuation.row.advances.none
+//@rewrite <<<for panel_side in &[>>> => <<<let ghost l0 = *line_numbers_data; for panel_side in it: &[>>>
+//@rewrite <<<painted_prefix.clone()>>> => <<<verif_clone_prefix(&painted_prefix)>>>
+//@loop 1| invariant it.seq().len() == 2, it.seq()[0] == Left, it.seq()[1] == Right,
+//@loop 1|     (*line_numbers_data is Some) == (l0 is Some),
+//@loop 1|     l0 is Some ==> *final((*line_numbers_data)->0) == *final(l0->0) && rest_kept(&*(*line_numbers_data)->0, &*l0->0)
+//@loop 1|         && ctr(&*(*line_numbers_data)->0) == (if it.index@ <= 1 { ctr(&*l0->0) } else { ln_step(ctr(&*l0->0), state, true) }),
 
 // ---- whether the lines of a block are wrapped at all (C07) ----
 /// what `available_line_width` / `has_long_lines` answer (the functions themselves: closures over `&mut` captures and
